@@ -772,6 +772,7 @@ func checkC18(c *Ctx) {
 	// descriptions and file names are UTF-16LE text with a fixed byte order (shared with C17)
 	c.ruleUTF16()
 	c.ruleGUIDFieldDecode("G7.fields", M+"/efi/device.HardDriveMediaDevicePath.PartitionSignature")
+	c.ruleNodeFieldOrder("H3.nodeorder")
 	c.rulePartialField("T6.partial", func(f *ssa.Function) bool { return strings.Contains(name(f), "efi/device.") })
 	c.ruleCodeUnits("T7.units", func(f *ssa.Function) bool {
 		return strings.Contains(name(f), "efi/device.") || strings.Contains(name(f), "efivar")
@@ -1654,5 +1655,66 @@ func (c *Ctx) ruleGUIDFieldDecode(rule string, fieldIDs ...string) {
 	}
 	if n == 0 {
 		c.R.Okf(rule, "-", "scan", "-", "no fixed-width integer is decoded by hand from a GUID byte array in efi/device")
+	}
+}
+
+// ruleNodeFieldOrder (H3.nodeorder): the body of a device-path node is decoded
+// into the fields of its structure in the order the structure declares them
+// (the structures of efi/device are laid out like the nodes of the
+// specification). Two consecutive wire positions that land in fields of the
+// same structure in descending order are a swap.
+func (c *Ctx) ruleNodeFieldOrder(rule string) {
+	n := 0
+	for _, fn := range c.P.LibFunctions() {
+		if fn.Pkg == nil || !strings.HasSuffix(fn.Pkg.Pkg.Path(), "/efi/device") || fn.Object() == nil || !fn.Object().Exported() {
+			continue
+		}
+		if !strings.HasPrefix(fn.Name(), "Parse") || !strings.HasSuffix(fn.Name(), "DevicePath") {
+			continue
+		}
+		ls, why := c.wireLeaves(fn, true)
+		if why != "" || len(ls) == 0 {
+			c.R.Infof(rule, name(fn), "field-order", c.Pos(fn.Pos()), "not decided for this shape: the reads of the node parser are not extracted ("+why+")")
+			continue
+		}
+		n++
+		// field index of a leaf id "<pkg>.<Type>.<Field>[...]" in its structure
+		index := func(id string) (string, int) {
+			for _, m := range fn.Pkg.Members {
+				tn, ok := m.(*ssa.Type)
+				if !ok {
+					continue
+				}
+				st, isS := tn.Type().Underlying().(*types.Struct)
+				if !isS {
+					continue
+				}
+				prefix := M + "/efi/device." + tn.Name() + "."
+				if !strings.HasPrefix(id, prefix) {
+					continue
+				}
+				first := strings.SplitN(strings.TrimPrefix(id, prefix), ".", 2)[0]
+				for k := 0; k < st.NumFields(); k++ {
+					if st.Field(k).Name() == first {
+						return tn.Name(), k
+					}
+				}
+			}
+			return "", -1
+		}
+		bad := ""
+		prevT, prevK, prevID := "", -1, ""
+		for _, l := range ls {
+			t, k := index(l.id)
+			if t != "" && t == prevT && k < prevK {
+				bad = shortID(prevID) + " is read before " + shortID(l.id)
+			}
+			prevT, prevK, prevID = t, k, l.id
+		}
+		c.R.Check(bad == "", rule, name(fn), "field-order", c.Pos(fn.Pos()), "the fields of a node are decoded in the order its structure declares them",
+			bad+", but the structure (and the node layout it mirrors) has them the other way round: the two values are swapped")
+	}
+	if n == 0 {
+		c.R.Infof(rule, "-", "scan", "-", "not decided for this shape: no device-path node parser with extractable reads")
 	}
 }
